@@ -192,3 +192,84 @@ def mh_options(genotype_alleles: A[iN, 1], variable_allele: int, haplotypes: A[i
         lemma_fsum_bound(PB, 0, U, 1 / (U - 1), CUR)
     with after_stmt("probabilities_array[current_allele] = 1 - probabilities_array.sum()"):
         lemma_fsum_upd(PB, probabilities_array, 0, U, CUR)
+
+
+@spec_inline
+def POSA(reads: A[float, 3], counts: A[int, 1], H: A[int, 2], P: int, N: int, n: int, U: int) -> bool:
+    """every read has positive probability under every genotype over the known haplotypes (true for
+    error-rate encoded reads): all likelihoods the sampler can meet are finite"""
+    return forall_arr1(lambda g: implies(VALIDA(g, P, U), not isninf(LLKA(reads, counts, H, g, P, N, n))), pattern=LLKA(reads, counts, H, g, P, N, n))
+
+
+@contract("mchap.calling.mcmc.compound_step", machine_ints=True, props=["C09", "C02"])
+def compound_step(genotype_alleles: A[iN, 1], haplotypes: A[i1, 2], reads: A[f8, 3], read_counts: Opt[A[i8, 1]], inbreeding: float, frequencies: Opt[A[f8, 1]], llk_cache: Opt[FDict], step_type: int) -> float:
+    requires(step_type == 0 or step_type == 1, implies(step_type == 1, U >= 2))
+    requires(U >= 1, U <= 127, P >= 1, P <= 127, 0 <= inbreeding, inbreeding < 1, reads.shape[1] == haplotypes.shape[1])
+    requires(implies(read_counts is not None, len(read_counts) == len(reads) and forall(0, len(reads), lambda r: read_counts[r] >= 1)))
+    requires(VALIDA(genotype_alleles, P, U), CALLOK(reads, haplotypes, U, NN, reads.shape[2]))
+    requires(implies(frequencies is not None, len(frequencies) == U and forall(0, U, lambda a: finite(frequencies[a]) and frequencies[a] > 0)))
+    requires(implies(llk_cache is not None, cwr(U, P) < 2 ** 53 and DCOH(llk_cache, reads, CN, haplotypes, P, NN, len(reads), U)))
+    requires(POSA(reads, CN, haplotypes, P, NN, len(reads), U))
+    modifies(genotype_alleles, llk_cache)
+    # C09: the returned likelihood is the likelihood of the (sorted) genotype left behind
+    ensures(result == LLKA(reads, CN, haplotypes, genotype_alleles, P, NN, len(reads)))
+    ensures(VALIDA(genotype_alleles, P, U), SORTEDA(genotype_alleles, P))
+    ensures(implies(llk_cache is not None, DCOH(llk_cache, reads, CN, haplotypes, P, NN, len(reads), U)))
+    with defs():
+        P = len(genotype_alleles)
+        U = len(haplotypes)
+        NN = haplotypes.shape[1]
+        CN = ones_if_none(read_counts)
+    with entry():
+        if frequencies is not None:
+            lemma_fsum_pos(frequencies, 0, U)
+    with loop(0):
+        invariant(0 <= j, j <= ploidy, ploidy == P, n_alleles == U, len(genotype_alleles) == P, len(order) == P, len(llks) == U, len(lpriors) == U, len(probabilities) == U)
+        invariant(forall(0, P, lambda t: 0 <= order[t] and order[t] < P))
+        invariant(VALIDA(genotype_alleles, P, U))
+        invariant(implies(llk_cache is not None, DCOH(llk_cache, reads, CN, haplotypes, P, NN, len(reads), U)))
+        invariant(implies(j >= 1, 0 <= choice and choice < U and not isnan(llks[choice]) and llks[choice] == LLKA(reads, CN, haplotypes, genotype_alleles, P, NN, len(reads))))
+        with head():
+            G0 = val(genotype_alleles)
+            instantiate(POSA(reads, CN, haplotypes, P, NN, len(reads), U), G0)
+            with forall_intro(a, 0, U, not isninf(LLKAU(reads, CN, haplotypes, G0, order[j], a, P, NN, len(reads)))):
+                lemma_llkau(reads, CN, haplotypes, G0, arr1(lambda i: ite(i == order[j], a, G0[i])), order[j], a, P, NN, len(reads))
+                instantiate(POSA(reads, CN, haplotypes, P, NN, len(reads), U), arr1(lambda i: ite(i == order[j], a, G0[i])))
+    with after_stmt("genotype_alleles[k] = choice"):
+        lemma_llkau(reads, CN, haplotypes, G0, genotype_alleles, k, choice, P, NN, len(reads))
+    with before_stmt("genotype_alleles.sort()"):
+        GB = val(genotype_alleles)
+    with after_stmt("genotype_alleles.sort()"):
+        with forall_intro(i, 0, P, 0 <= genotype_alleles[i] and genotype_alleles[i] < U):
+            assert_(genotype_alleles[i] == GB[sort0(i)])
+        lemma_llka_perm(reads, CN, haplotypes, GB, genotype_alleles, arr1(lambda i: sort0(i)), arr1(lambda i: sort0_inv(i)), P, NN, len(reads))
+
+
+@contract("mchap.calling.mcmc.mcmc_sampler", machine_ints=True, props=["C09", "C02"])
+def mcmc_sampler(genotype_alleles: A[iN, 1], haplotypes: A[i1, 2], reads: A[f8, 3], read_counts: Opt[A[i8, 1]], inbreeding: float, frequencies: Opt[A[f8, 1]], n_steps: int, cache: bool, step_type: int) -> Tup[A[iN, 2], A[f8, 1]]:
+    requires(step_type == 0 or step_type == 1, implies(step_type == 1, U >= 2), n_steps >= 0, n_steps <= 2 ** 40)
+    requires(U >= 1, U <= 127, P >= 1, P <= 127, 0 <= inbreeding, inbreeding < 1, reads.shape[1] == haplotypes.shape[1])
+    requires(implies(read_counts is not None, len(read_counts) == len(reads) and forall(0, len(reads), lambda r: read_counts[r] >= 1)))
+    requires(VALIDA(genotype_alleles, P, U), CALLOK(reads, haplotypes, U, NN, reads.shape[2]))
+    requires(implies(frequencies is not None, len(frequencies) == U and forall(0, U, lambda a: finite(frequencies[a]) and frequencies[a] > 0)))
+    requires(implies(cache, cwr(U, P) < 2 ** 53))
+    requires(POSA(reads, CN, haplotypes, P, NN, len(reads), U))
+    # C09: every recorded likelihood is the likelihood of the recorded genotype, with or without the cache
+    ensures(result[0].shape == (n_steps, P), result[1].shape == (n_steps,))
+    ensures(forall(0, n_steps, lambda s: result[1][s] == LLKA(reads, CN, haplotypes, result[0][s], P, NN, len(reads))))
+    ensures(forall(0, n_steps, lambda s: VALIDA(result[0][s], P, U) and SORTEDA(result[0][s], P)))
+    with defs():
+        P = len(genotype_alleles)
+        U = len(haplotypes)
+        NN = haplotypes.shape[1]
+        CN = ones_if_none(read_counts)
+    with after_stmt("llk_cache[-1] = np.nan"):
+        with forall_intro_arr1(g2, implies(VALIDA(g2, P, U) and SORTEDA(g2, P) and (IDX(g2, P) in llk_cache), same(llk_cache[IDX(g2, P)], LLKA(reads, CN, haplotypes, g2, P, NN, len(reads)))), pattern=IDX(g2, P)):
+            if VALIDA(g2, P, U) and SORTEDA(g2, P):
+                lemma_idx_bound(g2, P)
+    with loop(0):
+        invariant(0 <= i, i <= n_steps, ploidy == P, len(genotype_alleles) == P, genotype_trace.shape == (n_steps, P), llk_trace.shape == (n_steps,))
+        invariant(VALIDA(genotype_alleles, P, U))
+        invariant(implies(llk_cache is not None, DCOH(llk_cache, reads, CN, haplotypes, P, NN, len(reads), U)))
+        invariant(forall(0, i, lambda s: llk_trace[s] == LLKA(reads, CN, haplotypes, genotype_trace[s], P, NN, len(reads))))
+        invariant(forall(0, i, lambda s: VALIDA(genotype_trace[s], P, U) and SORTEDA(genotype_trace[s], P)))
